@@ -1,6 +1,6 @@
 (* C20 - threads: footprints, no_conflict, schedule independence.
    An execution is the list of (document, operation) events in the order a scheduler produced them.  Thread d is
-   the sub-list of events of document d.  For the allocation discipline without the shared cells ([sh = false]):
+   the sub-list of events of document d.  For the model of the code as it is ([sh = false], fresh nulls):
      * locality: what an operation of document a does, and what it returns, depends on document a's view only;
      * frame   : it changes document a's view only (C20Proofs.step_ok);
    hence for EVERY schedule each document ends in the state it reaches when its thread runs alone, every call
@@ -517,11 +517,12 @@ Fixpoint results_of (d : nat) (w : world) (evs : list event) : list ires :=
               if Nat.eqb (fst e) d then snd r :: results_of d (fst r) t else results_of d (fst r) t
   end.
 
-(* DESIGN section 5, threads_disjoint_footprints (second half), for the discipline without the shared cells:
-   for EVERY schedule [evs] of the threads' events (documents already created, each thread uses its own
-   document), document d ends with the view it has when thread d runs alone from the same initial world, and
-   every call of thread d returns what it returns alone. *)
-Lemma schedule_independent_partial_lemma : forall (evs : list event) (w : world) (d : nat),
+(* DESIGN section 5, threads_disjoint_footprints (second half), model of the code as it is:
+   for EVERY schedule [evs] of the threads' events (each thread uses its own document; the documents exist when the
+   threads start, i.e. no event creates one - document numbers are a global sequence in this model), document d
+   ends with the view it has when thread d runs alone from the same initial world, and every call of thread d
+   returns what it returns alone. *)
+Lemma schedule_independent_lemma : forall (evs : list event) (w : world) (d : nat),
   wf w -> admissible evs ->
   nth_error (w_docs (run_events false w evs)) d = nth_error (w_docs (run_events false w (thread d evs))) d /\
   results_of d w evs = results false w (thread d evs).
@@ -542,7 +543,7 @@ Qed.
 
 (* first half: no two threads write one cell.  An event of document a changes document a's view only (and no
    static), so the cells written by events of different documents are disjoint - for every prefix of every schedule. *)
-Lemma threads_disjoint_footprints_partial_lemma : forall (evs : list event) (w : world) (a : nat) (op : iop) (b : nat),
+Lemma threads_disjoint_footprints_lemma : forall (evs : list event) (w : world) (a : nat) (op : iop) (b : nat),
   wf w -> a <> b ->
   let w1 := run_events false w evs in
   let w2 := fst (step false a w1 op) in
@@ -552,8 +553,8 @@ Proof.
   destruct (step_ok a (run_events false w evs) op (run_events_wf evs w W)) as [[Hs Ho] _]. split; auto.
 Qed.
 
-(* The full statement (for the code as it is) is false: with the shared cell, an event of document 1 writes a
-   static cell, and changes the view... of nobody's document - but of every parse.  Witness: D6. *)
-Lemma threads_disjoint_footprints_refuted_lemma :
+(* HISTORICAL (finding D6, tree before fix b456e5d1): with the shared cell ([sh = true]) an event of document 1
+   writes a static cell, which every other thread's parses and destructors read and write.  Witness: D6. *)
+Lemma shared_null_discipline_writes_static_lemma :
   exists (w : world) (a : nat) (op : iop), a <> O /\ w_stat (fst (step true a w op)) <> w_stat w.
 Proof. exists (d6_world true), 1%nat, d6_op. split; [discriminate|]. vm_compute. discriminate. Qed.
